@@ -19,6 +19,23 @@ PROFILE = {"irr_methods": [0, 1, 1, 1, 2, 2, 3, 3, 4, 5, 5], "season_cap_p": 0.4
 
 
 def gen_case(rng, tier, idx):
+    if idx % 4 == 3:
+        # threshold irrigation whose targets differ strongly between growth stages, on crops in both calendar modes, with the
+        # development clock running apart from the calendar (dry seed bed -> delayed germination; dry spells): the days
+        # around every stage change then separate "this stage's target" from "the neighbouring stage's target"
+        prof = dict(PROFILE, irr_methods=[1], calendar_crop_p=0.4, iwc_kinds=["Pct", "Prop"], sat_start_p=0.0, gw=0.0, custom_soil_p=0.0,
+                    event_kinds=["drought", "dry_then_wet", "drought"], events_per_year=3.0, season_cap_p=0.0, sensible_planting_p=0.9, field_p=0.0)
+        case = std_case(rng, prof)
+        spec = case["spec"]
+        spec["irr"]["kwargs"]["SMT"] = rng.choice([[0, 80, 20, 80], [90, 10, 90, 10], [0, 70, 30, 70], [30, 90, 0, 60], [100, 0, 100, 0]])
+        spec["irr"]["kwargs"].pop("MaxIrrSeason", None)
+        if rng.random() < 0.7:
+            iwc = spec["iwc"]
+            if iwc["wc_type"] == "Prop":
+                iwc["value"] = ["WP" for _ in iwc["value"]]
+            else:
+                iwc["value"] = [rng.choice([0, 5, 10, 15]) for _ in iwc["value"]]
+        return case
     return std_case(rng, PROFILE)
 
 
